@@ -5,7 +5,10 @@
    <tag src="file"/>; every include names a file holding exactly that table; with
    splitGlyphs (which implies splitTables) the glyf table file in turn includes one file
    per glyph that has outline data (empty glyphs stay inline).  ImportXML follows includes, so the dump is lossless only if this graph is
-   complete and unambiguous.                                                        *)
+   complete and unambiguous: every include names its own file (the file holds exactly the
+   table / the glyph the include stands for) and no file is named twice - not even up to
+   letter case, because a dump has to survive a case-insensitive file system (the reason
+   the per-glyph names come from userNameToFileName, cf. Filenames.tla).              *)
 EXTENDS Integers, Sequences, FiniteSets, TLC
 
 Range(s) == {s[i] : i \in 1..Len(s)}
@@ -14,18 +17,39 @@ NoDup(s) == \A i, j \in 1..Len(s) : i # j => s[i] # s[j]
 (* what should be dumped *)
 Requested(all, only, skip) == IF only # <<>> THEN only ELSE SelectSeq(all, LAMBDA t : t \notin Range(skip))
 
-(* d = [main: seq of [tag, src], files: seq of [name, tags], glyfRefs: seq of names, glyphNames: seq]
+(* letter case of file names: ASCII and Latin-1 letters (glyph names come from 'post', which is Latin-1) *)
+FoldC(c) == IF (c >= 65 /\ c <= 90) \/ (c >= 192 /\ c <= 222 /\ c # 215) THEN c + 32 ELSE c
+Fold(s) == [i \in 1..Len(s) |-> FoldC(s[i])]
+
+(* The per-glyph level of the include graph.
+   d.glyphOrder   = the glyphs of the font (ids), in glyph order;
+   d.glyphEntries = the entries of the glyf file in order, one per glyph:
+                    [file |-> code points of the included file's name (<<>> = the glyph is inline),
+                     holds |-> ids of the TTGlyph elements found there (inline: the element's own name;
+                               a missing file holds <<>>)].                                          *)
+GlyphGraph(d) ==
+  LET E == d.glyphEntries
+      Inc == {i \in 1..Len(E) : E[i].file # <<>>}
+  IN IF Len(E) # Len(d.glyphOrder) THEN "dump:glyf-file-does-not-list-every-glyph-once"
+     ELSE IF Cardinality({Fold(E[i].file) : i \in Inc}) # Cardinality(Inc) THEN "dump:per-glyph-file-names-collide-ignoring-case"
+     ELSE IF \E i \in 1..Len(E) : E[i].holds # <<d.glyphOrder[i]>> THEN "dump:per-glyph-include-does-not-hold-exactly-its-glyph"
+     ELSE "ok"
+
+(* d = [main: seq of [tag, src], files: seq of [name, tags], glyfRefs: seq of names, numGlyphFiles, numInlineGlyphs,
+        numGlyphs, glyphOrder, glyphEntries, malformed: a written file could not be parsed as XML]
    present(t) = the font has table t (requested but absent tables are silently omitted) *)
 WellFormed(d, requested, split, splitGlyphs, present) ==
   LET want == SelectSeq(requested, LAMBDA t : t \in present)
       mainTags == [i \in 1..Len(d.main) |-> d.main[i].tag]
       fileNames == [i \in 1..Len(d.files) |-> d.files[i].name]
       FileTags(n) == LET S == {i \in 1..Len(d.files) : d.files[i].name = n} IN IF S = {} THEN <<"?">> ELSE d.files[CHOOSE i \in S : TRUE].tags
-  IN IF mainTags # want THEN "dump:main-file-does-not-list-the-requested-tables-in-order"
+  IN IF d.malformed THEN "dump:a-written-file-is-not-well-formed-XML"
+     ELSE IF mainTags # want THEN "dump:main-file-does-not-list-the-requested-tables-in-order"
      ELSE IF ~NoDup(fileNames) THEN "dump:two-includes-share-a-file-name"
      ELSE IF (split \/ splitGlyphs) /\ \E i \in 1..Len(d.main) : d.main[i].src = "" THEN "dump:table-inline-despite-splitTables"
      ELSE IF ~(split \/ splitGlyphs) /\ \E i \in 1..Len(d.main) : d.main[i].src # "" THEN "dump:include-without-splitTables"
      ELSE IF \E i \in 1..Len(d.main) : d.main[i].src # "" /\ FileTags(d.main[i].src) # <<d.main[i].tag>> THEN "dump:include-does-not-hold-exactly-its-table"
+     ELSE IF splitGlyphs /\ "glyf" \in Range(want) /\ GlyphGraph(d) # "ok" THEN GlyphGraph(d)
      ELSE IF splitGlyphs /\ "glyf" \in Range(want) /\ (~NoDup(d.glyfRefs) \/ Len(d.glyfRefs) # d.numGlyphFiles \/ Len(d.glyfRefs) + d.numInlineGlyphs # d.numGlyphs) THEN "dump:per-glyph-files-incomplete-or-colliding"
      ELSE IF ~splitGlyphs /\ Len(d.glyfRefs) # 0 THEN "dump:glyph-include-without-splitGlyphs"
      ELSE "ok"
